@@ -499,9 +499,10 @@ func replayHandshake(c Case) Result {
 					r.log(Event{K: "badhs", N: n, Res: c.Cfg.Fault})
 					fmt.Fprintf(cn, `{"id":%q,"from":"postmaster@example.com/srv","to":"cli@example.com/i","state":%q}`+"\n", sid, c.Cfg.Fault)
 				} else {
-					fmt.Fprintf(cn, `{"id":%q,"from":"postmaster@example.com/srv","to":"cli@example.com/i","state":"established"}`+"\n", sid)
+					// (recorded before it is written: the client may return from Establish the moment it reads it)
 					r.log(Event{K: "session", N: n})
 					defer r.log(Event{K: "released", N: n})
+					fmt.Fprintf(cn, `{"id":%q,"from":"postmaster@example.com/srv","to":"cli@example.com/i","state":"established"}`+"\n", sid)
 				}
 				for dec.Decode(&m) == nil {
 					if st, _ := m["state"].(string); st == "finishing" {
